@@ -162,7 +162,7 @@ pub fn isjacoco_candidate(rng: &mut Rng, sample_xml: &[u8]) -> (Vec<u8>, &'stati
             (v, "generated_len_255_256_257")
         }
         2 => {
-            // short file: marker present but fewer than 256 bytes
+            // short file: marker present but fewer than 256 bytes (accepted since 82d1c8b: read whole)
             let mut v = b"<?xml version=\"1.0\"?>".to_vec();
             v.extend_from_slice(doctype);
             let n = rng.range(v.len() as u64, 255) as usize;
@@ -180,7 +180,7 @@ pub fn isjacoco_candidate(rng: &mut Rng, sample_xml: &[u8]) -> (Vec<u8>, &'stati
             (v, "marker_near_byte_256")
         }
         4 => {
-            // a multi-byte character straddling byte 256 (the first 256 bytes are not UTF-8)
+            // a multi-byte character straddling byte 256 (the first 256 bytes are not UTF-8: irrelevant since 82d1c8b)
             let mut v = doctype.to_vec();
             let ch = *rng.pick(&["é", "語", "😀"]);
             let back = rng.range(1, ch.len() as u64 - 1) as usize;
@@ -228,9 +228,27 @@ pub fn isjacoco_candidate(rng: &mut Rng, sample_xml: &[u8]) -> (Vec<u8>, &'stati
             (v, "near_marker")
         }
         _ => {
-            let v = match rng.below(3) {
+            let v = match rng.below(6) {
                 0 => vec![],
                 1 => MARKER.to_vec(),
+                2 => {
+                    // short file that ends in the middle of the marker (read whole since 82d1c8b)
+                    let mut v = vec![b'y'; rng.below(40) as usize];
+                    v.extend_from_slice(&MARKER[..rng.range(1, 13) as usize]);
+                    v
+                }
+                3 => {
+                    // short file, marker is its last bytes; sometimes non-UTF-8 bytes before it
+                    let mut v = vec![if rng.chance(1, 2) { 0xff } else { b'z' }; rng.below(200) as usize];
+                    v.extend_from_slice(MARKER);
+                    v
+                }
+                4 => {
+                    // marker ending one byte past the 256-byte window
+                    let mut v = vec![b'x'; 257];
+                    v[243..257].copy_from_slice(MARKER);
+                    v
+                }
                 _ => {
                     let mut v = vec![b'x'; 256];
                     v[242..256].copy_from_slice(MARKER);
